@@ -46,12 +46,12 @@ CATALOGUE = [
     ("empty_branch_not_removed", S + "token.py", '        string = string.replace("(.)", "")\n', "", ["C05", "C06"]),
     ("descriptor_not_removed_after_attach", S + "mol_gen.py", "        del other_bond_descriptors[other_bond_idx]\n", "", ["C04", "C06"]),
     ("sz_params_swapped", S + "distribution.py", "        self._Mw, self._Mn = make_tuple(self._raw_text[len(\"schulz_zimm\") :])",
-     "        self._Mn, self._Mw = make_tuple(self._raw_text[len(\"schulz_zimm\") :])", ["C09", "C10", "C11", "C13"]),
-    ("lognormal_mean_shift", S + "distribution.py", "(np.log(m / M) + np.log(D) / 2) ** 2", "(np.log(m / M) - np.log(D) / 2) ** 2", ["C09", "C10", "C11", "C13"]),
+     "        self._Mn, self._Mw = make_tuple(self._raw_text[len(\"schulz_zimm\") :])", ["C09", "C10", "C11", "C13", "C14", "C20"]),
+    ("lognormal_mean_shift", S + "distribution.py", "(np.log(m / M) + np.log(D) / 2) ** 2", "(np.log(m / M) - np.log(D) / 2) ** 2", ["C09", "C10", "C11", "C13", "C14", "C20"]),
     ("gauss_sigma_as_variance", S + "distribution.py", "stats.norm(loc=self._mu, scale=self._sigma)", "stats.norm(loc=self._mu, scale=np.sqrt(self._sigma))", ["C09"]),
     ("poisson_truncated_mean", S + "distribution.py", "        self._N = float(self._raw_text[len(\"poisson\") + 1 : -1])",
-     "        self._N = float(int(float(self._raw_text[len(\"poisson\") + 1 : -1])))", ["C09", "C10", "C11", "C13"]),
-    ("uniform_scale_is_high", S + "distribution.py", "stats.uniform(loc=self._low, scale=(self._high - self._low))", "stats.uniform(loc=self._low, scale=self._high)", ["C09", "C10", "C11", "C13"]),
+     "        self._N = float(int(float(self._raw_text[len(\"poisson\") + 1 : -1])))", ["C09", "C10", "C11", "C13", "C14", "C20"]),
+    ("uniform_scale_is_high", S + "distribution.py", "stats.uniform(loc=self._low, scale=(self._high - self._low))", "stats.uniform(loc=self._low, scale=self._high)", ["C09", "C10", "C11", "C13", "C14", "C20"]),
     ("flory_pmf_exponent", S + "distribution.py", "a**2 * k * (1 - a) ** (k - 1)", "a**2 * k * (1 - a) ** k", ["C11", "C09"]),
     ("interval_uses_pdf", S + "distribution.py",
      "            return self._distribution.cdf(mw.value) - self._distribution.cdf(mw.previous)\n",
@@ -61,6 +61,13 @@ CATALOGUE = [
     ("elements_not_copied", S + "molecule.py", "        return copy.deepcopy(self._elements)\n", "        return list(self._elements)\n", ["C10"]),
     ("global_rng_used_for_draw", S + "stochastic.py", "            target_mol_weight = self.distribution.draw_mw(rng)\n",
      "            target_mol_weight = self.distribution.draw_mw()\n", ["C10", "C09"]),
+    ("ffcache_never_invalidated", S + "forcefield_helper.py",
+     "        or smarts_filename != _global_smarts_rule_file\n        or nb_filename != _global_nonbonded_itp_file\n", "", ["C20"]),
+    ("ffcache_names_before_read", S + "forcefield_helper.py",
+     "        _global_assignment_class = SMARTS_ASSIGNMENTS(smarts_filename, nb_filename)\n        _global_smarts_rule_file = smarts_filename\n        _global_nonbonded_itp_file = nb_filename\n",
+     "        _global_smarts_rule_file = smarts_filename\n        _global_nonbonded_itp_file = nb_filename\n        _global_assignment_class = SMARTS_ASSIGNMENTS(smarts_filename, nb_filename)\n", ["C20"]),
+    ("ff_partial_not_refused", S + "mol_gen.py", "        if not self.fully_generated:\n            raise RuntimeError(\n                \"Forcefield assignment is only possible for fully generated molecules\"\n            )\n", "", ["C20"]),
+    ("ff_completeness_check_dropped", S + "forcefield_helper.py", "        if len(final_dict) != mol.GetNumAtoms():\n            raise FfAssignmentError(final_dict)\n", "", ["C20"]),
     ("premature_end_ignored_weight", S + "stochastic.py",
      "                if len(my_mol.bond_descriptors) == 0:", "                if len(my_mol.bond_descriptors) <= 1 and str(self.right_terminal) == \"[]\":", ["C07", "C06"]),
 ]
@@ -71,6 +78,12 @@ BENIGN_ATTACH_DEEPCOPY_DROPPED = ("attach_deepcopy_dropped", S + "mol_gen.py", "
 
 # behaviour-preserving edits: every check must stay quiet on them (soundness)
 BENIGN_MIRROR_SHALLOW = ("mirror_shallow", S + "molecule.py", "        mirror = copy.deepcopy(self)\n", "        mirror = copy.copy(self)\n", ["C10"])
+
+BENIGN_FFCACHE_NAMES_MIXED_UP = ("ffcache_names_mixed_up", S + "forcefield_helper.py",
+     "        or smarts_filename != _global_smarts_rule_file\n        or nb_filename != _global_nonbonded_itp_file\n",
+     "        or smarts_filename != _global_nonbonded_itp_file\n        or nb_filename != _global_smarts_rule_file\n", ["C20"])
+
+BENIGN_FF_LONGEST_RULE_PREF_DROPPED = ("ff_longest_rule_pref_dropped", S + "forcefield_helper.py", "                if len(match_rule) > len(final_match):", "                if False:", ["C20"])
 
 
 def apply(entry, dst):
@@ -93,7 +106,7 @@ def run_one(entry, runs, all_props=False, out=sys.stdout):
         shutil.copytree(os.path.join("/repo", "src"), os.path.join(tmp, "src"), ignore=shutil.ignore_patterns("__pycache__", "*.egg-info"))
         apply(entry, tmp)
         results = {}
-        check_props = props if not all_props else ["C04", "C05", "C06", "C07", "C08", "C09", "C10", "C11", "C13"]
+        check_props = props if not all_props else ["C04", "C05", "C06", "C07", "C08", "C09", "C10", "C11", "C13", "C14", "C20"]
         for pid in check_props:
             env = dict(os.environ)
             env.update({"GBSIM_REPO": tmp, "GBSIM_RUNS": str(runs), "PYTHONHASHSEED": "0", "GBSIM_EVIDENCE_DIR": os.path.join(tmp, "ev"),
